@@ -24,7 +24,7 @@ def snapshot_hook(hk: Hooks, snaps: list[dict[str, Any]]) -> None:
         snap = dict(step=int(self.timer.step), clock=str(self.timer.time), npid=int(state.npid), alive_pids=state.pid[alive].copy(),
                     inst={k: np.asarray(state[k])[alive].copy() for k in state.instance_variables},
                     part={k: np.asarray(state[k]).copy() for k in state.particle_variables},
-                    nstate=len(state.pid))
+                    nstate=len(state.pid), inactive_alive=int(np.sum(alive & ~np.asarray(state.active, bool))))
         snaps.append(snap)
         return None
 
